@@ -200,21 +200,36 @@ impl Drop for Tasks { fn drop(&mut self) { for t in &self.0 { t.abort(); } } }
 
 fn body_is(m: &Msg, tag: u64) -> bool { m.notify == 0 && m.body == tag.to_string().into_bytes() }
 
-async fn run_script(cap: Option<u64>, nmw: u64, events: &[Event]) -> Result<String, String> {
+/// the observer's own single-threaded runtime: a stalled server runtime (a
+/// handler blocking a worker that holds the I/O driver) cannot stop its timers
+fn client_runtime() -> &'static tokio::runtime::Runtime {
+    static RT: std::sync::OnceLock<tokio::runtime::Runtime> = std::sync::OnceLock::new();
+    RT.get_or_init(|| tokio::runtime::Builder::new_current_thread().enable_all().build().unwrap())
+}
+
+struct Setup { sh: Arc<Shared>, rx: UnboundedReceiver<Ev>, modes: String, addr: std::net::SocketAddr, tasks: Tasks }
+
+/// router, hooks and a live server (on the shared multi-threaded runtime)
+fn start_server(cap: Option<u64>, nmw: u64) -> Result<Setup, String> {
     let (tx, rx) = unbounded_channel();
     let sh = Arc::new(Shared { gauge: AtomicUsize::new(0), maxg: AtomicUsize::new(0), mwc: AtomicUsize::new(0), gates: Mutex::new(HashMap::new()), tx });
     let router = build_router(&sh, nmw);
     let modes: String = ["/in", "/pj", "/pt", "/pc"].iter().map(|p| match router.get(p).map(|h| h.execution()) {
         Some(Execution::Inline) => 'i', Some(Execution::OffReader) => 'o', _ => '?' }).collect();
-
-    let l = WebSocketServer::listen("127.0.0.1:0").await.map_err(|e| format!("ws-bind:{e}"))?;
-    let addr = l.local_addr().map_err(|e| format!("ws-addr:{e}"))?;
     let hook = sh.clone();
     let srv = WebSocketServer::new(router).with_offreader_limit(cap.unwrap_or(0) as usize).on_error(move |err| {
         let _ = hook.tx.send(match err { ConnectionError::Saturation { .. } => Ev::Sat, ConnectionError::HandlerPanic { .. } => Ev::Pan, _ => Ev::OtherErr });
     });
-    let mut tasks = Tasks(vec![]);
-    tasks.0.push(tokio::spawn(async move { let _ = srv.serve_listener(l, "/repe").await; }));
+    let (addr, task) = net::runtime().block_on(async move {
+        let l = tokio::time::timeout(T_CONN, WebSocketServer::listen("127.0.0.1:0")).await.map_err(|_| "timeout:ws-bind".to_string())?.map_err(|e| format!("ws-bind:{e}"))?;
+        let addr = l.local_addr().map_err(|e| format!("ws-addr:{e}"))?;
+        Ok::<_, String>((addr, tokio::spawn(async move { let _ = srv.serve_listener(l, "/repe").await; })))
+    })?;
+    Ok(Setup { sh, rx, modes, addr, tasks: Tasks(vec![task]) })
+}
+
+async fn run_script(cap: Option<u64>, nmw: u64, events: &[Event], setup: Setup) -> Result<String, String> {
+    let Setup { sh, rx, modes, addr, tasks } = setup;
     let (ws, _) = tokio::time::timeout(T_CONN, tt::connect_async_with_config(format!("ws://{addr}/repe"), None, true)).await.map_err(|_| "timeout:raw-connect".to_string())?.map_err(|e| format!("raw-connect:{e}"))?;
     let mut p = Peer { ws, rx, log: vec![], started: HashSet::new(), exited: HashSet::new(), inline_ran: HashSet::new(), sat: 0, pan: 0, other: 0, dead: None };
 
@@ -327,8 +342,11 @@ fn run_case(line: &str) -> String {
     let Some((cap, nmw, events)) = parsed else { return "crash=badcase:parse".into() };
     if cap == Some(0) || nmw > 8 { return "crash=badcase:cap-or-mw".into(); }
     let r = guard(move || {
-        net::runtime().block_on(async {
-            match tokio::time::timeout(T_CASE, run_script(cap, nmw, &events)).await { Ok(r) => r, Err(_) => Err("timeout:case".into()) }
+        let setup = start_server(cap, nmw)?;
+        // the gates close when `sh` and the script's senders are gone, so every
+        // parked handler leaves even when the script is cut short
+        client_runtime().block_on(async {
+            match tokio::time::timeout(T_CASE, run_script(cap, nmw, &events, setup)).await { Ok(r) => r, Err(_) => Err("timeout:case".into()) }
         })
     });
     match r { Ok(Ok(obs)) => obs, Ok(Err(e)) => format!("crash={}", clean(e)), Err(()) => "crash=panic".into() }
